@@ -103,7 +103,7 @@ def refs_distinct(ex, st, r1, r2):
         b = ref_upper_bound(o)
         if b is not None and c.as_long() >= b:
             return True
-    return ex.quick(st, r1 != r2) if st is not None else False
+    return ex.quick(st, r1 != r2, sticky_fail=True) if st is not None else False
 
 
 def heap_select(ex, st, arr, r, memo=None):
@@ -221,14 +221,14 @@ def dyn_kind(ex, st, v):
         return tag
     if st is None:
         return None
-    if tag == "ref" or ex.quick(st, is_Ref(v)):
+    if tag == "ref" or ex.quick(st, is_Ref(v), sticky_fail=True):
         r = rval(v)
         for k, name in ((T_DICT, "dict"), (T_LIST, "list"), (T_TUPLE, "tuple"), (T_OBJ, "obj")):
-            if ex.quick(st, ty(r) == k):
+            if ex.quick(st, ty(r) == k, sticky_fail=True):
                 return name
         return None
     if tag is None:
-        if ex.quick(st, is_Str(v)):
+        if ex.quick(st, is_Str(v), sticky_fail=True):
             return "str"
     return None
 
